@@ -20,6 +20,7 @@ use vstd::std_specs::cmp::OrdSpec;
 //@map /\bString\b/ => VxStr
 //@map /Arc<dyn Validator>/ => VxValidator
 //@map /\.values\(\)\.sum::<u64>\(\)/ => .vx_sum()
+//@map /(\w+(?:\.\w+)*)\.payments\.entry\((\w+)\)\.or_insert_with\(RoutedPayment::new\);/ => \1.payments.vx_ensure(\2);
 //@map /\bDuration::from_secs\(/ => VxDuration::from_secs(
 //@map /\bDuration\b/ => VxDuration
 //@map /UnorderedSet<&PaymentHash>/ => VxHashSet
@@ -408,6 +409,8 @@ impl VxInvoiceMap {
     pub fn insert(&mut self, k: PaymentHash, v: PaymentState) -> (r: Option<PaymentState>) ensures final(self)@ == old(self)@.insert(k, v) { unimplemented!() }
 }
 impl VxPaymentMap {
+    #[verifier::external_body]
+    pub fn insert(&mut self, k: PaymentHash, v: RoutedPayment) -> (r: Option<RoutedPayment>) ensures final(self)@ == old(self)@.insert(k, v) { unimplemented!() }
     // `state.payments.entry(hash).or_insert_with(RoutedPayment::new);` (result unused)
     #[verifier::external_body]
     pub fn vx_ensure(&mut self, k: PaymentHash)
@@ -461,14 +464,16 @@ impl VxNodeInv {
             && final(self).persisted@ == Some(final(self).state),                                         //[C06.add-keysend.approves-exact-amount] [C12.add-keysend.counted] [C11.add-keysend.persisted]
         // an existing approval is never widened
         old(self).state.invoices@.contains_key(payment_hash) ==> final(self).state.invoices@ == old(self).state.invoices@,   //[C06.add-keysend.existing-untouched]
+        // what is already recorded as in flight for the hash (and for every other hash) stays recorded
+        forall|h: PaymentHash| #[trigger] old(self).state.payments@.contains_key(h) ==>
+            final(self).state.payments@.contains_key(h) && final(self).state.payments@[h] == old(self).state.payments@[h],    //[C06.add-keysend.ledger-kept]
         // refused (velocity limit, too many invoices, different keysend for the hash): nothing is approved
         !(r.is_ok() && r->Ok_0) ==> final(self).state.invoices@ == old(self).state.invoices@
-            && final(self).state.payments@ == old(self).state.payments@,                                   //[C10.add-keysend.refused-approves-nothing]
+            && final(self).state.payments@ == old(self).state.payments@,                                   //[C10.add-keysend.refused-approves-nothing] [C12.add-keysend.refused-approves-nothing]
 //@sub /Node::payment_state_from_keysend\(/ => Self::payment_state_from_keysend(
 //@sub /self\.clock\.now\(\)/ => self.vx_clock_now()
 //@sub /let mut state = self\.get_state\(\);/ => 
 //@sub /\bstate\./ => self.state.
-//@sub /self\.state\.payments\.entry\(payment_hash\)\.or_insert_with\(RoutedPayment::new\);/ => self.state.payments.vx_ensure(payment_hash);
 //@sub /(?s)self\.persister\.update_node\(&self\.get_id\(\), &\*state\)\.vx_expect\(\);/ => self.vx_update_node();
 //@end
 
@@ -480,12 +485,13 @@ impl VxNodeInv {
             approved(old(self).state, final(self).state, invoice.hash(), invoice.amount(), old(self).clock_secs())
             && final(self).persisted@ == Some(final(self).state),                                         //[C06.add-invoice.approves-exact-amount] [C12.add-invoice.counted] [C11.add-invoice.persisted]
         old(self).state.invoices@.contains_key(invoice.hash()) ==> final(self).state.invoices@ == old(self).state.invoices@,   //[C06.add-invoice.existing-untouched]
+        forall|h: PaymentHash| #[trigger] old(self).state.payments@.contains_key(h) ==>
+            final(self).state.payments@.contains_key(h) && final(self).state.payments@[h] == old(self).state.payments@[h],    //[C06.add-invoice.ledger-kept]
         !(r.is_ok() && r->Ok_0) ==> final(self).state.invoices@ == old(self).state.invoices@
-            && final(self).state.payments@ == old(self).state.payments@,                                   //[C10.add-invoice.refused-approves-nothing]
+            && final(self).state.payments@ == old(self).state.payments@,                                   //[C10.add-invoice.refused-approves-nothing] [C12.add-invoice.refused-approves-nothing]
 //@sub /self\.clock\.now\(\)/ => self.vx_clock_now()
 //@sub /let mut state = self\.get_state\(\);/ => 
 //@sub /\bstate\./ => self.state.
-//@sub /self\.state\.payments\.entry\(hash\)\.or_insert_with\(RoutedPayment::new\);/ => self.state.payments.vx_ensure(hash);
 //@sub /(?s)self\.persister\.update_node\(&self\.get_id\(\), &\*state\)\.vx_expect\(\);/ => self.vx_update_node();
 //@end
 }
